@@ -181,12 +181,11 @@ class Program:
 
         def safely(what: str, mods: list, fn) -> None:  # noqa: ANN001
             """A normaliser step that fails leaves the trees as they were (the rules then see the code as written)."""
-            backup = {m.name: _copy.deepcopy(m.tree) for m in mods}
             try:
                 fn()
             except Exception as e:  # noqa: BLE001
                 for m in mods:
-                    m.tree = backup[m.name]
+                    m.tree = ast.parse(m.src, filename=m.path)     # as written (earlier steps on this module are lost too)
                 self.normalized.append(f'normaliser step {what} failed and was skipped: {type(e).__name__}: {e}')
         allm = list(self.modules.values())
         nlogp: list[str] = []
